@@ -160,6 +160,8 @@ def item_str(v):
         return 'None'
     if k == 'o':
         return v['str']
+    if k in ('isub', 'fsub'):
+        return v['str']
     raise ValueError(k)
 
 
@@ -1397,3 +1399,119 @@ def in_stated_domain(case):
             if name in blank_sensitive and not s.strip():
                 return False
     return True
+
+
+# --------------------------------------------------------------------------
+# the site x payload matrix: every substitution site with every critical payload, deterministically
+
+def _site_templates():
+    """(name, kind, builder) where builder(vals) -> (tmpl-or-expr, data, mode); vals = list of payload values"""
+    V = lambda n: {'k': 'var', 'n': n}
+    sites = []
+
+    def text(name, mk):
+        sites.append((name, 'text', mk))
+
+    def attr(name, mk):
+        sites.append((name, 'attr', mk))
+    for form in ('brace', 'dollar', 'replace-attr', 'replace-el'):
+        text('text:' + form, lambda v, form=form: ([{'t': 'lit', 's': 'a'}, {'t': 'site', 'form': form, 'e': V('v0')}, {'t': 'lit', 's': ' b'}],
+                                                 {'v0': v}))
+    text('text:py:content', lambda v: ([{'t': 'el', 'name': 'p', 'attrs': [], 'kids': [], 'content': V('v0')}], {'v0': v}))
+    text('text:for-body', lambda v: ([{'t': 'for', 'var': 'x1', 'e': V('v0'),
+                                       'kids': [{'t': 'el', 'name': 'li', 'attrs': [], 'kids': [{'t': 'site', 'form': 'brace', 'e': V('x1')}]}]}],
+                                     {'v0': {'k': 'l', 'items': [v, v]}}))
+    text('text:for-attr-form', lambda v: ([{'t': 'el', 'name': 'li', 'attrs': [], 'kids': [], 'content': V('x1'),
+                                            'for': {'var': 'x1', 'e': V('v0')}}], {'v0': {'k': 'l', 'items': [v]}}))
+    text('text:with', lambda v: ([{'t': 'with', 'var': 'y1', 'e': V('v0'), 'kids': [{'t': 'site', 'form': 'dollar', 'e': V('y1')}]}], {'v0': v}))
+    text('text:macro', lambda v: ([{'t': 'def', 'name': 'f0', 'param': 'a1', 'kids': [{'t': 'el', 'name': 'u', 'attrs': [], 'kids': [{'t': 'site', 'form': 'brace', 'e': V('a1')}]}]},
+                                   {'t': 'site', 'form': 'brace', 'e': {'k': 'call', 'f': 'f0', 'arg': 'v0'}}], {'v0': v}))
+    text('text:list-literal', lambda v: ([{'t': 'site', 'form': 'brace', 'e': {'k': 'list', 'items': ['v0', 'v0']}}], {'v0': v}))
+    text('text:generator-expr', lambda v: ([{'t': 'site', 'form': 'brace', 'e': {'k': 'gen', 'items': ['v0']}}], {'v0': v}))
+    text('text:list-value', lambda v: ([{'t': 'site', 'form': 'brace', 'e': V('v0')}], {'v0': {'k': 'l', 'items': [v, {'k': 's', 's': 'x'}]}}))
+    text('text:generator-value', lambda v: ([{'t': 'site', 'form': 'brace', 'e': V('v0')}], {'v0': {'k': 'g', 'items': [v]}}))
+    text('text:if', lambda v: ([{'t': 'if', 'cond': True, 'kids': [{'t': 'site', 'form': 'brace', 'e': V('v0')}]}], {'v0': v}))
+    text('text:choose', lambda v: ([{'t': 'choose', 'pick': 1, 'kids': [[{'t': 'lit', 's': 'no'}], [{'t': 'site', 'form': 'brace', 'e': V('v0')}]]}], {'v0': v}))
+    text('builder:child', lambda v: ([{'t': 'site', 'form': 'brace', 'e': {'k': 'tag', 'el': {'name': 'b', 'attrs': [], 'kids': [{'v': 'v0'}], 'call': True}}}], {'v0': v}))
+    text('builder:child-list', lambda v: ([{'t': 'site', 'form': 'brace', 'e': {'k': 'tag', 'el': {'name': 'b', 'attrs': [], 'kids': [{'lst': ['v0', 'v0']}], 'call': False}}}], {'v0': v}))
+    text('builder:fragment', lambda v: ([{'t': 'site', 'form': 'brace', 'e': {'k': 'frag', 'kids': [{'v': 'v0'}, {'el': {'name': 'i', 'attrs': [], 'kids': [{'v': 'v0'}], 'call': True}}]}}], {'v0': v}))
+    attr('builder:attr', lambda v: ([{'t': 'site', 'form': 'brace', 'e': {'k': 'tag', 'el': {'name': 'a', 'attrs': [['href', 'v0'], ['class_', 'v0']], 'kids': [], 'call': True}}}], {'v0': v}))
+    attr('attr:whole-brace', lambda v: ([{'t': 'el', 'name': 'a', 'attrs': [{'name': 'title', 'parts': [{'e': V('v0'), 'form': 'brace'}]}], 'kids': []}], {'v0': v}))
+    attr('attr:whole-dollar', lambda v: ([{'t': 'el', 'name': 'a', 'attrs': [{'name': 'title', 'parts': [{'e': V('v0'), 'form': 'dollar'}]}], 'kids': []}], {'v0': v}))
+    attr('attr:mixed', lambda v: ([{'t': 'el', 'name': 'a', 'attrs': [{'name': 'href', 'parts': [{'lit': 'x?a=1&b='}, {'e': V('v0'), 'form': 'brace'}, {'lit': '#"\''}]}], 'kids': []}], {'v0': v}))
+    attr('attr:two-exprs', lambda v: ([{'t': 'el', 'name': 'a', 'attrs': [{'name': 'id', 'parts': [{'e': V('v0'), 'form': 'dollar'}, {'e': V('v0'), 'form': 'brace'}]},
+                                                                            {'name': 'class', 'parts': [{'lit': 'k'}]}], 'kids': []}], {'v0': v}))
+    attr('attr:list-expr', lambda v: ([{'t': 'el', 'name': 'a', 'attrs': [{'name': 'alt', 'parts': [{'e': {'k': 'list', 'items': ['v0', 'v0']}, 'form': 'brace'}]}], 'kids': []}], {'v0': v}))
+    attr('attr:in-loop', lambda v: ([{'t': 'el', 'name': 'li', 'attrs': [{'name': 'title', 'parts': [{'e': V('x1'), 'form': 'brace'}]}], 'kids': [],
+                                      'for': {'var': 'x1', 'e': V('v0')}}], {'v0': {'k': 'l', 'items': [v, v]}}))
+    for form in ('dict', 'list', 'var'):
+        def mk(v, form=form):
+            pa = {'form': form, 'items': [['title', 'v0'], ['id', 'v1']]}
+            data = {'v0': v, 'v1': {'k': 's', 's': 'k'}}
+            if form == 'var':
+                pa['var'] = 'd2'
+                data['d2'] = {'k': 'pairs', 'dict': True, 'items': pa['items']}
+            return ([{'t': 'el', 'name': 'a', 'attrs': [{'name': 'id', 'parts': [{'lit': 'old'}]}], 'kids': [], 'pyattrs': pa}], data)
+        attr('pyattrs:' + form, mk)
+    return sites
+
+
+def _op_templates():
+    """Markup operator sites: operands are str / Markup / __html__ objects only"""
+    sites = []
+    M = {'k': 'm', 's': '<i>ok</i>', 'toks': [['S', 'i', {}], ['T', 'ok'], ['E', 'i']]}
+    Mp = {'k': 'm', 's': '&amp;', 'toks': [['T', '&']]}
+    S = lambda e, data: ([{'t': 'site', 'form': 'brace', 'e': e}], data)
+    sites.append(('op:add', 'text', lambda v: S({'k': 'add', 'm': 'M1', 'arg': 'v0'}, {'v0': v, 'M1': M})))
+    sites.append(('op:radd', 'text', lambda v: S({'k': 'radd', 'm': 'M1', 'arg': 'v0'}, {'v0': v, 'M1': Mp})))
+    sites.append(('op:join', 'text', lambda v: S({'k': 'join', 'm': 'M1', 'items': ['v0', 'v0']}, {'v0': v, 'M1': Mp})))
+    sites.append(('op:escape-q', 'text', lambda v: S({'k': 'esc', 'arg': 'v0', 'q': True}, {'v0': v})))
+    sites.append(('op:escape-noq', 'text', lambda v: S({'k': 'esc', 'arg': 'v0', 'q': False}, {'v0': v})))
+    ps1 = [['T', '100% '], ['S', 'b', []], ['H', 0], ['E', 'b']]
+    sites.append(('op:fmt-one', 'text', lambda v: S({'k': 'fmt', 'm': 'M1', 'pieces': ps1, 'args': ['v0'], 'tuple': False},
+                                                  {'v0': v, 'M1': {'k': 'fmtstr', 's': fmt_string(ps1)}})))
+    ps2 = [['S', 'a', [['href', ['hole', 0]], ['class', ['lit', 'x"y']]]], ['H', 1], ['E', 'a'], ['T', ' & ']]
+    sites.append(('op:fmt-attr-and-text', 'attr', lambda v: S({'k': 'fmt', 'm': 'M1', 'pieces': ps2, 'args': ['v0', 'v0'], 'tuple': True},
+                                                             {'v0': v, 'M1': {'k': 'fmtstr', 's': fmt_string(ps2)}})))
+    ps3 = [['H', 0], ['T', ','], ['S', 'em', [['title', ['hole', 1]]]], ['E', 'em']]
+    sites.append(('op:fmt-mapping', 'attr', lambda v: S({'k': 'fmtmap', 'm': 'M1', 'pieces': ps3, 'keys': [['a0', 'v0'], ['b1', 'v0']]},
+                                                       {'v0': v, 'M1': {'k': 'fmtstr', 's': fmt_string(ps3, ['a0', 'b1'])}})))
+    return sites
+
+
+def matrix_payload_strings(method, where):
+    out = []
+    for s in CRIT + FRAGS + UNI + WS + (HTML_ONLY if method == 'html' else []):
+        s = fit(s, method, where)
+        if s not in out:
+            out.append(s)
+    out.append(fit(''.join(CRIT), method, where))
+    out.append('')
+    return out
+
+
+def matrix_cases(method, strip, impl):
+    cases = []
+    for name, where, mk in _site_templates():
+        vals = [{'k': 's', 's': s} for s in matrix_payload_strings(method, where)]
+        vals += [{'k': 'o', 'str': s, 'html': None} for s in ['<b>', '"', '&amp;', "'>", ' x ']]
+        vals += [{'k': 'i', 'n': 42}, {'k': 'f', 'x': '1e+100'}, {'k': 'b', 'v': True}, {'k': 'n'},
+                 {'k': 'isub', 'n': 5, 'str': '<script>x</script>'}, {'k': 'fsub', 'str': '"><b>'}]
+        if where == 'text':
+            vals += [{'k': 'm', 's': m['s'], 'toks': m['toks']} for m in SAFE_MARKUP]
+            vals += [{'k': 'o', 'str': '<s>', 'html': SAFE_MARKUP[0]}]
+        for v in vals:
+            if name.startswith('pyattrs') and v['k'] in ('s', 'o') and not (v.get('s', v.get('str', 'x'))).strip():
+                continue    # finding C01-attrs-blank-dropped
+            tmpl, data = mk(v)
+            cases.append({'mode': 'template', 'tmpl': tmpl, 'data': data, 'method': method, 'strip': strip, 'impl': impl,
+                          })
+    for name, where, mk in _op_templates():
+        vals = [{'k': 's', 's': s} for s in matrix_payload_strings(method, where)]
+        if where == 'text':
+            vals += [{'k': 'm', 's': m['s'], 'toks': m['toks']} for m in SAFE_MARKUP]
+            vals += [{'k': 'o', 'str': '<s>', 'html': SAFE_MARKUP[1]}]
+        for v in vals:
+            tmpl, data = mk(v)
+            cases.append({'mode': 'template', 'tmpl': tmpl, 'data': data, 'method': method, 'strip': strip, 'impl': impl})
+    return cases
